@@ -451,11 +451,33 @@ class Compiler(object):
                 if resolved_member['type'] == 'OCTET STRING':
                     self.pre_process_default_value_octet_string(member)
 
-                if resolved_member['type'] == 'ENUMERATED' and self._numeric_enums:
-                    for key, value in resolved_member['values']:
-                        if key == member['default']:
-                            member['default'] = value
-                            break
+                if resolved_member['type'] == 'ENUMERATED':
+                    self.pre_process_default_value_enumerated(member,
+                                                              resolved_member)
+
+    def pre_process_default_value_enumerated(self, member, resolved_member):
+        """The specification may already have been compiled with another
+        numeric_enums setting, so the default may be given as name or
+        number. Store the representation used by this compilation.
+
+        """
+
+        default = member['default']
+
+        for item in resolved_member['values']:
+            if item == EXTENSION_MARKER:
+                continue
+
+            key, value = item
+
+            if default == key or (not isinstance(default, str)
+                                  and default == value):
+                if self._numeric_enums:
+                    member['default'] = value
+                else:
+                    member['default'] = key
+
+                break
 
     def pre_process_default_value_bit_string(self, member, resolved_member):
         default = member['default']
